@@ -40,6 +40,7 @@ def cases(draw, tier="quick"):
     P["kills"] = draw(st.sampled_from([0, 1, 1, 2, 3, 4]))
     P["cand_kills"] = draw(st.sampled_from([0, 0, 1, 2]))
     P["kill_awaiting_accept"] = P["cand_kills"] > 0 and draw(st.booleans())
+    P["kill_half_selected"] = P["cand_kills"] > 0 and draw(st.booleans())
     P["w_kill"] = draw(st.sampled_from([1, 2, 4]))
     P["ping_interval"] = [draw(st.sampled_from([1.0, 5.0, 30.0]))] * 2
     # how a loss of the connection in use is noticed: by both TCP stacks (in either order), by one of them, or by
@@ -133,6 +134,7 @@ def run_case(P):
     cand_left = [P.get("cand_kills", 0)]
     cand_killed = [0]
     awaiting_killed = [0]
+    half_killed = [0]
     max_cands = [0]
     dilate_steps = [None, None]
 
@@ -192,6 +194,25 @@ def run_case(P):
                             l.pending_notify.remove(t)
                         t._lose(terror.ConnectionLost())
                     out.append((12, ("custom", kill_now)))
+        # the connection is lost right after the Leader selected it, while the Follower is still CONNECTING (it has not
+        # processed the Leader's KCM yet), and the Leader notices first: RECONNECT reaches a Follower that is in the
+        # middle of the previous reconnect
+        if cand_left[0] > 0 and li is not None and P.get("kill_half_selected"):
+            ms_ = c.managers()
+            L_, F_ = ms_[li], ms_[1 - li]
+            if L_ is not None and F_ is not None and c.state_name(L_) == "CONNECTED" and c.state_name(F_) == "CONNECTING":
+                for l in c.selected_links():
+                    if l.a.broken:
+                        continue
+
+                    def kill_half(c2, l=l):
+                        cand_left[0] -= 1
+                        half_killed[0] += 1
+                        c2.kills += 1
+                        who = c2.ws[li]._sim_node
+                        ends = tuple(t for t in (l.a, l.b) if t.owner is who)
+                        l.break_(notify=ends if ends else None)
+                    out.append((12, ("custom", kill_half)))
         return out
     try:
         aged = 0
@@ -258,6 +279,7 @@ def run_case(P):
         sep = abs(dilate_steps[0] - dilate_steps[1])
     res.nontrivial = case.kills >= 1 or max_cands[0] >= 2 or bool(sep)
     res.notes["candidate_lost_while_awaiting_accept"] += awaiting_killed[0]
+    res.notes["lost_while_follower_still_connecting"] += half_killed[0]
     res.features = dict(kills=common.bucket(case.kills, [0, 1, 2, 4]), cand_kills=cand_killed[0], awaiting=awaiting_killed[0], relay=P["relay"],
                         nl="%d%d" % tuple(P["no_listen"]), cands=min(max_cands[0], 3), late="/".join(P["dilate_at"]), aged=aged)
     for (exc, frame, msg) in case.errors:
